@@ -1,1 +1,2 @@
 pub mod common;
+pub mod wincon_sys;
